@@ -328,7 +328,16 @@ fn eval_book(req: &str) -> ImplOut {
             Err(e) => return Err(("c24:exported-file-does-not-load".to_string(), e)),
         };
         m2.evaluate();
-        Ok((a, super::bookgen::snapshot(&m2)))
+        let b = super::bookgen::snapshot(&m2);
+        if std::env::var("C24_DUMP").is_ok() {
+            for l in a.iter().filter(|l| l.starts_with("cell:")) {
+                eprintln!("A {}", l.replace('\u{1f}', " "));
+            }
+            for l in b.iter().filter(|l| l.starts_with("cell:")) {
+                eprintln!("B {}", l.replace('\u{1f}', " "));
+            }
+        }
+        Ok((a, b))
     }));
     match res {
         Err(_) => ImplOut::new("panic".into()).fail("c24:panic", &format!("seed {seed}")),
@@ -338,6 +347,16 @@ fn eval_book(req: &str) -> ImplOut {
             let ma: BTreeMap<String, Vec<(String, String)>> = a.iter().map(|l| split_line(l)).collect();
             let mb: BTreeMap<String, Vec<(String, String)>> = b.iter().map(|l| split_line(l)).collect();
             let mut out = ImplOut::new("done".into());
+            // cells on a reference cycle have no value that is a function of the workbook (it depends on the
+            // evaluation history: property C05/C07's domain); such workbooks are compared without their cells
+            let circular = a.iter().chain(b.iter()).any(|l| l.starts_with("cell:") && l.contains("#CIRC!"));
+            if circular {
+                out = out.tag("circular:cells-not-compared");
+            }
+            let ma: BTreeMap<String, Vec<(String, String)>> =
+                ma.into_iter().filter(|(k, _)| !(circular && k.starts_with("cell:"))).collect();
+            let mb: BTreeMap<String, Vec<(String, String)>> =
+                mb.into_iter().filter(|(k, _)| !(circular && k.starts_with("cell:"))).collect();
             let mut n = 0;
             let mut seen = std::collections::BTreeSet::new();
             for (k, fa) in &ma {
